@@ -317,7 +317,19 @@ impl Cqueue {
             crate::verif::pt("cq.poll.repop", crate::verif::addr(self), 0, 0);
             match self.ev_queue.pop() {
                 None => {
-                    cur.park(timeout).ok();
+                    // wait for the rest of the timeout only: a wake up without an event for the
+                    // caller (a select coroutine has ended) must not start it anew
+                    match deadline {
+                        Some(d) => {
+                            let now = Instant::now();
+                            if now < d {
+                                cur.park(Some(d - now)).ok();
+                            }
+                        }
+                        None => {
+                            cur.park(None).ok();
+                        }
+                    }
                 }
                 Some(mut ev) => {
                     #[cfg(may_verif)]
